@@ -175,6 +175,17 @@ func renderMpcl(mc *mpCase) string {
 			a, x := name(s.X), name(s.Y)
 			n := def(types[s.X-1])
 			fmt.Fprintf(&body, "\t%s := %s\n\t%s[%d] = %s\n", n, a, n, s.C, x)
+		case "mat":
+			et := types[s.X-1].s
+			n := def(rType{s: "[2][2]" + et, elem: et})
+			fmt.Fprintf(&body, "\tvar %s [2][2]%s\n\t%s[0][0] = %s\n\t%s[0][1] = %s\n\t%s[1][0] = %s\n\t%s[1][1] = %s\n", n, et, n, name(s.X), n, name(s.Y), n, name(s.Z), n, name(s.C))
+		case "midx":
+			n := def(rType{s: types[s.X-1].elem})
+			fmt.Fprintf(&body, "\t%s := %s[%d][%d]\n", n, name(s.X), s.C/2, s.C%2)
+		case "mset":
+			m, x := name(s.X), name(s.Y)
+			n := def(types[s.X-1])
+			fmt.Fprintf(&body, "\t%s := %s\n\t%s[%d][%d] = %s\n", n, m, n, s.C/2, s.C%2, x)
 		case "asetl":
 			a := name(s.X)
 			n := def(types[s.X-1])
